@@ -11,6 +11,7 @@ import nixio
 
 root = os.path.dirname(nixio.__file__)
 out = []
+skipped = []
 
 
 def is_guard(node):
@@ -36,12 +37,16 @@ for path in sorted(glob.glob(os.path.join(root, "*.py"))):
                     kind = "getter"
             if kind == "getter":
                 continue
-            guards = [n for n in ast.walk(fn) if is_guard(n)]
+            # the guarded update must be a statement of the function body itself: one that sits
+            # inside a branch is performed only on some paths and does not count
+            guards = [n for n in fn.body if is_guard(n)]
+            nested = [n for n in ast.walk(fn) if is_guard(n) and n not in guards]
             if guards:
-                # position of the guard: "last" statement of the body, or elsewhere
                 last = fn.body[-1]
                 pos = "last" if (guards[-1] is last) else "inner"
                 out.append({"file": os.path.basename(path), "class": cls.name, "name": fn.name, "kind": kind, "where": pos})
+            elif nested:
+                skipped.append({"class": cls.name, "name": fn.name, "why": "guarded update only inside a branch"})
 
 util_src = open(os.path.join(root, "util", "util.py")).read()
 tree = ast.parse(util_src)
@@ -52,4 +57,4 @@ for fn in [n for n in tree.body if isinstance(n, ast.FunctionDef) and n.name in 
             for a in node.args:
                 if isinstance(a, ast.Constant) and isinstance(a.value, str) and "%" in a.value:
                     fmts[fn.name] = {"call": node.func.attr, "format": a.value}
-json.dump({"touch": out, "formats": fmts}, sys.stdout)
+json.dump({"touch": out, "formats": fmts, "conditional": skipped}, sys.stdout)
